@@ -15,7 +15,7 @@
 // argv[1] (optional): side file, one line per case with the raw counters:
 //   cid nops (new malloc calloc realloc memalign mmap)*nops defer_backend direct_backend enum_backend nerr nmsgs
 // -DSIG_PART=k selects the slice of statement signatures (harness/codec_sigs.h, shared with C04);
-// -DFE_UNBOUNDED=0/1 selects the frontend (FrontendOptions are compile-time constants).
+// both frontends (bounded / unbounded; FrontendOptions are compile-time constants) are in every binary.
 #include "common.h"
 
 #include <array>
@@ -224,24 +224,32 @@ template <> struct quill::Codec<DStr> : quill::DeferredFormatCodec<DStr> {};
 template <> struct quill::Codec<DirU> : quill::DirectFormatCodec<DirU> {};
 
 // ------------------------------------------------------------------ frontend / backend set-up
-#ifndef FE_UNBOUNDED
-  #define FE_UNBOUNDED 0
-#endif
-struct HOpts
+// FrontendOptions are compile-time constants: FE 0 = bounded (8 KiB), FE 1 = unbounded (2 KiB, at most 64 KiB);
+// the dropping variants, so that a full queue returns instead of waiting for the hand-driven backend
+template <int FE> struct HOptsT;
+template <> struct HOptsT<0>
 {
-#if FE_UNBOUNDED
-  static constexpr quill::QueueType queue_type = quill::QueueType::UnboundedDropping;
-  static constexpr size_t initial_queue_capacity = 2048;
-#else
   static constexpr quill::QueueType queue_type = quill::QueueType::BoundedDropping;
   static constexpr size_t initial_queue_capacity = 8192;
-#endif
   static constexpr uint32_t blocking_queue_retry_interval_ns = 800;
   static constexpr size_t unbounded_queue_max_capacity = 65536;
   static constexpr quill::HugePagesPolicy huge_pages_policy = quill::HugePagesPolicy::Never;
 };
-using HFrontend = quill::FrontendImpl<HOpts>;
-using HLogger = quill::LoggerImpl<HOpts>;
+template <> struct HOptsT<1>
+{
+  static constexpr quill::QueueType queue_type = quill::QueueType::UnboundedDropping;
+  static constexpr size_t initial_queue_capacity = 2048;
+  static constexpr uint32_t blocking_queue_retry_interval_ns = 800;
+  static constexpr size_t unbounded_queue_max_capacity = 65536;
+  static constexpr quill::HugePagesPolicy huge_pages_policy = quill::HugePagesPolicy::Never;
+};
+template <int FE> struct Fe
+{
+  using Opts = HOptsT<FE>;
+  using Frontend = quill::FrontendImpl<Opts>;
+  using Logger = quill::LoggerImpl<Opts>;
+  static inline Logger* logger = nullptr;
+};
 
 struct CountSink : quill::Sink
 {
@@ -256,7 +264,6 @@ struct CountSink : quill::Sink
 };
 
 static quill::ManualBackendWorker* g_mbw = nullptr;
-static HLogger* g_logger = nullptr;
 static CountSink* g_sink = nullptr;
 static size_t g_nerr = 0;
 static FILE* g_side = nullptr;
@@ -420,10 +427,10 @@ template <size_t N> struct Arity {};
 
 // every macro family on a statement with the arguments a0 .. a(N-1) of the pack
 #define DEF_ARITY(N, BIND, ARGS, FMT)                                                                              \
-  template <class Pack> static void do_log(Arity<N>, [[maybe_unused]] Pack& pack, int fam, OpRes& r)               \
+  template <int FE, class Pack> static void do_log(Arity<N>, [[maybe_unused]] Pack& pack, int fam, OpRes& r)       \
   {                                                                                                                \
     BIND                                                                                                           \
-    HLogger* lg = g_logger;                                                                                        \
+    auto* lg = Fe<FE>::logger;                                                                                     \
     switch (fam)                                                                                                   \
     {                                                                                                              \
     case 0: WIN(CALL(QUILL_LOG_INFO, lg, FMT ARGS)); break;                                                        \
@@ -477,7 +484,7 @@ struct Step
   void wait_for(int me) { std::unique_lock<std::mutex> l(m); cv.wait(l, [&] { return turn == me; }); }
 };
 
-template <class... Ts>
+template <int FE, class... Ts>
 static void logging_thread(std::vector<u64> const& a, size_t pos, size_t nops, Step& st)
 {
   tl_role = 1;
@@ -508,16 +515,16 @@ static void logging_thread(std::vector<u64> const& a, size_t pos, size_t nops, S
     OpRes& r = st.res[k];
     switch (ops[k].kind)
     {
-    case 0: WIN(HFrontend::preallocate()); break;
-    case 1: do_log(Arity<sizeof...(Ts)>{}, *ops[k].pack, ops[k].fam, r); break;
+    case 0: WIN(Fe<FE>::Frontend::preallocate()); break;
+    case 1: do_log<FE>(Arity<sizeof...(Ts)>{}, *ops[k].pack, ops[k].fam, r); break;
     case 2:
     {
-      HLogger* lg = g_logger;
+      auto* lg = Fe<FE>::logger;
       std::string_view const sv{g_fill, static_cast<size_t>(ops[k].x)};
       WIN(QUILL_LOG_INFO(lg, "{}", sv));
       break;
     }
-    case 3: WIN(HFrontend::shrink_thread_local_queue(static_cast<size_t>(ops[k].x))); break;
+    case 3: WIN(Fe<FE>::Frontend::shrink_thread_local_queue(static_cast<size_t>(ops[k].x))); break;
     default: break;
     }
     st.give(0);
@@ -543,14 +550,15 @@ static void drain()
 
 static constexpr u64 BAD = 18446744073709551614ull;
 
-template <bool WithDyn, class... Ts>
-static void run_case(std::vector<u64> const& a)
+template <int FE, class... Ts>
+static void run_fe(std::vector<u64> const& a)
 {
+  using HOpts = typename Fe<FE>::Opts;
   std::vector<u64> out, side;
   u64 const unb = a[0], drop = a[1], init = a[2], mx = a[3], cid = a[6] >> 16, tylen = a[7], nargs = a[8];
   size_t pos = 9 + tylen;
-  bool const cfg_ok = (unb != 0) == (FE_UNBOUNDED != 0) && drop == 1 && init == HOpts::initial_queue_capacity &&
-    (!FE_UNBOUNDED || mx == HOpts::unbounded_queue_max_capacity) && a[4] == std::string{}.capacity();
+  bool const cfg_ok = (unb != 0) == (FE != 0) && drop == 1 && init == HOpts::initial_queue_capacity &&
+    (!FE || mx == HOpts::unbounded_queue_max_capacity) && a[4] == std::string{}.capacity();
   if (!cfg_ok || nargs != sizeof...(Ts) || pos >= a.size()) { out.push_back(BAD); vh::print_line(out); return; }
   size_t const nops = a[pos++];
 
@@ -560,7 +568,7 @@ static void run_case(std::vector<u64> const& a)
   size_t const nerr0 = g_nerr, nmsg0 = g_sink->n;
 
   Step st;
-  std::thread th([&] { logging_thread<Ts...>(a, pos, nops, st); });
+  std::thread th([&] { logging_thread<FE, Ts...>(a, pos, nops, st); });
   st.wait_for(0);
   if (st.bad) { th.join(); out.push_back(BAD); vh::print_line(out); return; }
   {
@@ -590,12 +598,9 @@ static void run_case(std::vector<u64> const& a)
     out.push_back(res);
     if (ctx)
     {
-      auto& q = ctx->get_spsc_queue<HOpts::queue_type>();
-#if FE_UNBOUNDED
-      out.push_back(q.producer_capacity());
-#else
-      out.push_back(q.capacity());
-#endif
+      auto& q = ctx->template get_spsc_queue<HOpts::queue_type>();
+      if constexpr (FE != 0) out.push_back(q.producer_capacity());
+      else out.push_back(q.capacity());
       out.push_back(ctx->get_conditional_arg_size_cache().capacity());
     }
     else { out.push_back(0); out.push_back(0); }
@@ -624,6 +629,13 @@ static void run_case(std::vector<u64> const& a)
   }
 }
 
+template <bool WithDyn, class... Ts>
+static void run_case(std::vector<u64> const& a)
+{
+  if (a[0]) run_fe<1, Ts...>(a);
+  else run_fe<0, Ts...>(a);
+}
+
 #ifndef SIG_PART
   #define SIG_PART 0
 #endif
@@ -647,13 +659,18 @@ int main(int argc, char** argv)
   bo.error_notifier = [](std::string const&) { ++g_nerr; };
   bo.log_timestamp_ordering_grace_period = std::chrono::microseconds{0};
   g_mbw->init(bo);
-  auto sink = HFrontend::create_or_get_sink<CountSink>("cnt");
+  auto sink = Fe<0>::Frontend::create_or_get_sink<CountSink>("cnt");
   g_sink = static_cast<CountSink*>(sink.get());
   quill::PatternFormatterOptions pfo;
   pfo.add_metadata_to_multi_line_logs = false;
-  g_logger = HFrontend::create_or_get_logger("l", sink, pfo, quill::ClockSourceType::System);
-  g_logger->init_backtrace(2, quill::LogLevel::None);   // LOG_BACKTRACE needs a storage on the backend
+  Fe<0>::logger = Fe<0>::Frontend::create_or_get_logger("bounded", sink, pfo, quill::ClockSourceType::System);
+  Fe<1>::logger = Fe<1>::Frontend::create_or_get_logger("unbounded", sink, pfo, quill::ClockSourceType::System);
+  // LOG_BACKTRACE needs a storage on the backend.  One thread may use one kind of frontend only (the cached
+  // thread context pointer is shared by all LoggerImpl instantiations), hence a thread per frontend.
+  std::thread([] { Fe<0>::logger->init_backtrace(2, quill::LogLevel::None); }).join();
+  std::thread([] { Fe<1>::logger->init_backtrace(2, quill::LogLevel::None); }).join();
   drain();
+  g_mbw->poll_one();
 
   std::string model; std::vector<u64> a;
   while (vh::read_case(model, a))
